@@ -148,9 +148,27 @@ func Judge(ctx *core.Ctx, cases []*MsgCase, obs *Observations) {
 				}
 				var desc []string
 				for _, s := range seen {
-					desc = append(desc, fmt.Sprintf("%s id=%d (%dx, first in %s)", s.Obs.PhStr, s.Obs.ID, s.N, s.Ctx))
+					desc = append(desc, fmt.Sprintf("%s id=%d (%dx alone, %dx embedded; first in %s)", s.Obs.PhStr, s.Obs.ID, s.In["iso"], s.N-s.In["iso"], s.Ctx))
 				}
-				ctx.Violation(core.Sig{Family: "M2-names", Feature: what + "-vary-across-compiles," + c.Feat},
+				// several outcomes in one kind of context: not a function of the
+				// message at all; otherwise a function of message + surroundings
+				how := "-depend-on-surrounding-code,"
+				for _, kind := range []string{"iso", "emb0", "emb1", "emb2", "emb3"} {
+					k := 0
+					for _, s := range seen {
+						if s.In[kind] > 0 {
+							k++
+						}
+					}
+					if k > 1 {
+						how = "-vary-across-compiles,"
+					}
+				}
+				feat := what + how + c.Feat
+				if how == "-depend-on-surrounding-code," {
+					feat = what + "-depend-on-surrounding-code" // whatever the body
+				}
+				ctx.Violation(core.Sig{Family: "M2-names", Feature: feat},
 					fmt.Sprintf("%s compiles to different %s: %s; spec: %s", UnparseBody(c.Parts), what, strings.Join(desc, " / "), c.PhStr),
 					replayCase{SubFamily: fam, Case: c, Meaning: mn, Source: seen[0].Src, Expected: exp, Observed: seen, Repo: core.RepoDir})
 				continue
